@@ -968,6 +968,10 @@ class vPeriod(TimeBase):
             start, end_or_duration = ical.split('/')
             start = vDDDTypes.from_ical(start, timezone=timezone)
             end_or_duration = vDDDTypes.from_ical(end_or_duration, timezone=timezone)
+            if not isinstance(start, datetime) or \
+                    not isinstance(end_or_duration, (datetime, timedelta)):
+                # RFC 5545, 3.3.9: date-time "/" date-time or date-time "/" duration
+                raise ValueError('a period consists of date-times and a duration')
             return (start, end_or_duration)
         except Exception:
             raise ValueError(f'Expected period format, got: {ical}')
